@@ -117,3 +117,21 @@ package main
 //@   call ChainUnaryInterceptor#* asserts[C13] mtls: (c.TLSConfig != nil && c.TLSCaFile != "") ==> (exists x Int :: inSlice(arg0, x) && mtlsUnary(x) == (c.AllowUnauthenticatedReads ? 1 : 2))
 //@   call ChainStreamInterceptor#* asserts[C13] mtls: (c.TLSConfig != nil && c.TLSCaFile != "") ==> (exists x Int :: inSlice(arg0, x) && mtlsStream(x) == (c.AllowUnauthenticatedReads ? 1 : 2))
 //@   call ListenAndServeGRPC#* asserts[C18] limit: arg6 == c.MaxBlobSize && arg4 == c.EnableACKeyInstanceMangling && arg3 == !c.DisableGRPCACDepsCheck
+
+//@ extern github.com/buchgr/bazel-remote/v2/cache/disk.New(dir, maxSizeBytes, opts)
+//@   pure
+//@ extern github.com/buchgr/bazel-remote/v2/config.Get(ctx)
+//@   pure
+//@   ensures result1 == nil ==> result0 != nil
+
+// run (C18, C19): the configured limits and storage mode are the ones handed to the cache.
+//@ func run(ctx *cli.Context) error
+//@   serves C18 C19
+//@   noframe
+//@   nosafety
+//@   allowpanic
+//@   call WithMaxBlobSize#* asserts[C18] blob: arg0 == c.MaxBlobSize
+//@   call WithProxyMaxBlobSize#* asserts[C18] proxyblob: arg0 == c.MaxProxyBlobSize
+//@   call WithStorageMode#* asserts[C19] mode: arg0 == c.StorageMode
+//@   call WithZstdImplementation#* asserts[C19] zstd: arg0 == c.ZstdImplementation
+//@   call New#* asserts[C19] dir: arg0 == c.Dir
